@@ -18,6 +18,7 @@ import Flowjaxv.Driver.NetInverse
 import Flowjaxv.Driver.Planar
 import Flowjaxv.Driver.BnafLd
 import Flowjaxv.Driver.ElboAd
+import Flowjaxv.Driver.Flows
 /-!
 Model driver: `lake env lean --run Driver.lean < ops.txt`.  One op per line in, one line out
 (`ERR <msg>` when the model rejects the op).
@@ -108,6 +109,7 @@ def dispatch (line : String) : String :=
       | "actlj" => actlj args
       | "lmme" => lmme args
       | "stlgrad" => stlgrad args
+      | "flow" => flow args
       | _ => .error s!"unknown op {op}"
     match r with
     | .ok s => s
